@@ -34,11 +34,14 @@ def default_cls(op):
             "set_fallbacks": "reg", "remove_observer": "reg"}.get(o, "valid")
 
 
-def canon_cb(cbs):
-    """callbacks in canonical order: runs of observer notifications are an unordered batch"""
+def canon_cb(cbs, keep_lines=False):
+    """callbacks in canonical order: runs of observer notifications are an unordered batch; the
+    harness's own 'lines delivered so far' counter is dropped unless the check is about timing"""
     out = []
     run = []
     for c in cbs or []:
+        if not keep_lines and "lines" in c:
+            c = {k: v for k, v in c.items() if k != "lines"}
         if c.get("k") == "obs":
             run.append(c)
         else:
@@ -69,6 +72,14 @@ class Batch:
             if v is not None and mask:
                 v = mask(k, v)
             o[k] = self.intern(v) if v is not None else 0
+        sv = (obs or {}).get("save") or {}
+        try:
+            fl = sv["flows"][sv["currentFlowName"]]["callstack"]["threads"]
+            o["nthreads"] = len(fl)
+            o["frames"] = max(len(t["callstack"]) for t in fl)
+        except (KeyError, TypeError, ValueError):
+            o["nthreads"] = 0
+            o["frames"] = 0
         o["canB"] = bool(obs and obs.get("can"))
         o["nch"] = len(obs.get("choices", [])) if obs else 0
         pf = {}
@@ -143,6 +154,7 @@ class Batch:
         return self.ncases
 
     def add_probe(self, caseno, recs, cfg, root, froot=None):
+        prev_obs = {}
         for r in recs:
             if r.get("n", 0) <= 0:
                 continue
@@ -155,6 +167,14 @@ class Batch:
                      key=self.intern(["evalkey", op.get("name"), op.get("args")]) if op.get("op") == "eval_fn" else 0,
                      fin=bool(r.get("finished", False)), expect=0, lenient=bool(op.get("lenient", False)),
                      root=root, froot=froot or {}, hasobs=has)
+            e["ja"] = e["jb"] = 0
+            if cls == "jumpreset" and r.get("obs") and prev_obs.get(e["i"]):
+                tgt = op.get("path", "").split(".")[0]
+                strip = lambda ob: {k: v for k, v in (ob.get("visits") or {}).items() if k.split(".")[0] != tgt}
+                e["ja"] = self.intern(strip(prev_obs[e["i"]]))
+                e["jb"] = self.intern(strip(r["obs"]))
+            if r.get("obs"):
+                prev_obs[e["i"]] = r["obs"]
             if "expectval" in op:
                 e["expect"] = self.intern(op["expectval"])
             self.events.append(e)
